@@ -1,7 +1,10 @@
 mod area_builder;
 mod area_green;
+mod area_red;
+mod reftree;
 mod area_intern;
 mod gen;
+mod gen_red;
 mod interp;
 mod util;
 
